@@ -35,8 +35,8 @@ CHECKS["C19"] = dict(
     design="DESIGN.md S.2 and 3 C19")
 
 CHECKS["C16"] = dict(
-    technique="Coq proof: token-level printer model over the precedence table/comparators regenerated from the source derives canon(e) under a C17 expression grammar (fmtC_derives), value preservation (canon_eval), lexer safety for all trees; char-exact correspondence with the real Formatter, pycparser re-reading of expressions and whole kernels",
-    text="For every well-formed expression tree: the printed tokens derive, under the C grammar, the same tree (n-ary nodes left-nested, negative literals as unary minus), which has the same value; no glued '--' for any tree. Statement level (loops, declarations, subscripts, bounds) and literals (one unit in the 16th printed digit) are decided by re-reading the real text with pycparser against the exported AST (correspondence). Complex literals are outside the Coq fragment. numba half: see C18.",
+    technique="Coq proof: token-level printer model over the precedence table/comparators regenerated from the source derives canon(e) under a C17 expression grammar (fmtC_derives), value preservation (canon_eval), lexer safety for all trees; char-exact correspondence with the real Formatter, pycparser re-reading of expressions and whole kernels; statement level: token model of the statement printer (StmtFmt.fmtS) proved to derive every well-formed statement tree under a statement grammar written from C17 6.7/6.8 (fmtS_derives), compared token by token with the real Formatter on every kernel of the corpus (stmtcorr.py)",
+    text="For every well-formed expression tree: the printed tokens derive, under the C grammar, the same tree (n-ary nodes left-nested, negative literals as unary minus), which has the same value; no glued '--' for any tree. Statement level (declarations with nested initialiser lists, assignments, +=, for loops with their bounds, blocks, spliced lists): for every statement tree with well-formed expressions the printed tokens derive that tree under the statement grammar (proved over the token model, which is compared with the real Formatter on every corpus kernel; the real text is additionally re-read with pycparser against the exported AST). Literals (one unit in the 16th printed digit; -0.0 read as 0) are decided by re-reading. Complex literals are outside the Coq fragment. numba half: see C18.",
     note="Coq kernel+VM; tr_prec.py; the C grammar transcription in Tok.v and its unambiguity; pycparser; CPython float formatting",
     design="DESIGN.md S.2 and 3 C16")
 
